@@ -28,6 +28,42 @@ enum AView {
     Async(u32, Vec<AView>),
     /// a dynamic block `(move || view)`: its content is built inside an effect scope
     Dyn(Vec<AView>),
+    /// `(resv G (views))`: a Resource created at the top of the render (outside every boundary) whose fetch completes when gate G
+    /// opens, READ here by a dynamic view that shows nothing while it is loading and the views once it has a value
+    ResView(u32, Vec<AView>),
+}
+
+thread_local! {
+    static RESOURCES: RefCell<HashMap<u32, Resource<u32>>> = RefCell::new(HashMap::new());
+}
+
+/// create the resources of all `resv` nodes, in the current (render) scope
+fn prepare_resources(v: &AView, gates: &Gates) {
+    match v {
+        AView::Text(_) => {}
+        AView::El(_, ch) | AView::Dyn(ch) => ch.iter().for_each(|c| prepare_resources(c, gates)),
+        AView::Sus(fb, ch) | AView::Trans(fb, ch) => {
+            fb.iter().for_each(|c| prepare_resources(c, gates));
+            ch.iter().for_each(|c| prepare_resources(c, gates));
+        }
+        AView::Async(_, res) => res.iter().for_each(|c| prepare_resources(c, gates)),
+        AView::ResView(g, vs) => {
+            let rx = gates.borrow_mut().remove(g).unwrap_or_else(|| panic!("gate {g} used twice"));
+            let mut rx = Some(rx);
+            let g = *g;
+            let r = create_isomorphic_resource(move || {
+                let rx = rx.take();
+                async move {
+                    if let Some(rx) = rx {
+                        let _ = rx.await;
+                    }
+                    g
+                }
+            });
+            RESOURCES.with(|m| m.borrow_mut().insert(g, r));
+            vs.iter().for_each(|c| prepare_resources(c, gates));
+        }
+    }
 }
 
 fn parse(s: &Sx) -> AView {
@@ -39,6 +75,7 @@ fn parse(s: &Sx) -> AView {
         "trans" => AView::Trans(l[1].list().iter().map(parse).collect(), l[2].list().iter().map(parse).collect()),
         "async" => AView::Async(l[1].num(), l[2].list().iter().map(parse).collect()),
         "dyn" => AView::Dyn(l[1].list().iter().map(parse).collect()),
+        "resv" => AView::ResView(l[1].num(), l[2].list().iter().map(parse).collect()),
         x => panic!("bad async view {x}"),
     }
 }
@@ -89,6 +126,14 @@ fn build(v: &AView, gates: &Gates) -> View {
             let (ch, gates) = (ch.clone(), gates.clone());
             View::from_dynamic(move || build_all(&ch, &gates))
         }
+        AView::ResView(g, vs) => {
+            let r = RESOURCES.with(|m| *m.borrow().get(g).expect("resource prepared"));
+            let (vs, gates) = (vs.clone(), gates.clone());
+            View::from_dynamic(move || match r.get_clone() {
+                None => View::default(),
+                Some(_) => build_all(&vs, &gates),
+            })
+        }
         AView::Async(g, res) => {
             let rx = gates.borrow_mut().remove(g).unwrap_or_else(|| panic!("gate {g} used twice"));
             let (res, gates) = (res.clone(), gates.clone());
@@ -111,7 +156,7 @@ fn gates_of(v: &AView, out: &mut Vec<u32>) {
             ch.iter().for_each(|c| gates_of(c, out));
         }
         AView::Dyn(ch) => ch.iter().for_each(|c| gates_of(c, out)),
-        AView::Async(g, res) => {
+        AView::Async(g, res) | AView::ResView(g, res) => {
             out.push(*g);
             res.iter().for_each(|c| gates_of(c, out));
         }
@@ -150,10 +195,19 @@ pub fn run_one(mode: &str, view: &Sx, sched: &Sx) -> (Vec<String>, usize, (u32, 
     let mut out = Vec::new();
     match mode.as_str() {
         "sync" => {
-            let s = render_to_string(move || {
-                c1.set(sycamore_reactive::verif::node_count());
-                s1.set((use_stable_counter(), use_stable_counter()));
-                build(&view, &gates)
+            // (inside an executor: a resource spawns its fetch even when nobody waits for it)
+            let rt = tokio::runtime::Builder::new_current_thread().build().unwrap();
+            let local = tokio::task::LocalSet::new();
+            let s = local.block_on(&rt, async {
+                sycamore_futures::provide_executor_scope(async {
+                    render_to_string(move || {
+                        c1.set(sycamore_reactive::verif::node_count());
+                        s1.set((use_stable_counter(), use_stable_counter()));
+                        prepare_resources(&view, &gates);
+                        build(&view, &gates)
+                    })
+                })
+                .await
             });
             out.push(format!("sync {}", hex(&s)));
         }
@@ -164,6 +218,7 @@ pub fn run_one(mode: &str, view: &Sx, sched: &Sx) -> (Vec<String>, usize, (u32, 
                 let fut = render_to_string_await_suspense(move || {
                     c2.set(sycamore_reactive::verif::node_count());
                     s2.set((use_stable_counter(), use_stable_counter()));
+                    prepare_resources(&view, &gates);
                     build(&view, &gates)
                 });
                 futures::pin_mut!(fut);
@@ -202,6 +257,7 @@ pub fn run_one(mode: &str, view: &Sx, sched: &Sx) -> (Vec<String>, usize, (u32, 
                 let stream = render_to_string_stream(move || {
                     c3.set(sycamore_reactive::verif::node_count());
                     s3.set((use_stable_counter(), use_stable_counter()));
+                    prepare_resources(&view, &gates);
                     build(&view, &gates)
                 });
                 let mut stream = Box::pin(stream);
